@@ -283,7 +283,13 @@ def prop(case, ctx):
             X = np.vstack([X, X[:3]])
         y = {"zero": np.zeros(len(X)), "const": np.full(len(X), 2.5)}.get(case["data"], X[:, 0] * 0 + (X[:, 0] > 0))
         nn = 2 + fl % 3
-        Z = plib(teneva.anova_func, X, y, nn, -1., 1., [1e-7, 1e-2][(fl // 4) % 2], [1e-8, None][(fl // 8) % 2])
+        if fl & 2:
+            X = X[:2 + fl % 2]                       # fewer samples than basis functions: rank-deficient design
+            y = y[:len(X)]
+        # regularisation from the default down to numerically vanishing (still > 0): the documented solver returns the
+        # minimum-norm coefficients for a rank-deficient design
+        lamb = [1e-7, 1e-2, 1e-18, 1e-30][(fl // 4) % 4]
+        Z = plib(teneva.anova_func, X, y, nn, -1., 1., lamb, [1e-8, None][(fl // 16) % 2])
         check_tt(ctx, Z, [nn] * d, f"anova_func on {case['data']} data")
 
 
